@@ -352,7 +352,7 @@ func TestC06BlockMutations(t *testing.T) {
 			}
 			// Sometimes the type string of a column is replaced by a hostile one (typed targets pass
 			// it to Infer before any check): re-encode the block with that type name and no data.
-			if rapid.IntRange(0, 5).Draw(rt, "hostile-type-string") == 0 {
+			if rapid.IntRange(0, 3).Draw(rt, "hostile-type-string") == 0 {
 				bad := gen.MalformedType(rt)
 				hb := refBlock(cols, ref.BlockInfo{BucketNum: -1})
 				i := rapid.IntRange(0, len(cols)-1).Draw(rt, "which-column")
@@ -458,7 +458,7 @@ func encodeRefMessage(rt *rapid.T, name string, rev int) *ref.Enc {
 	e := &ref.Enc{}
 	s := func(l string) string { return protoStr.Draw(rt, l) }
 	i := func(l string) int64 { return int64(protoInt.Draw(rt, l)) }
-	info := ref.ClientInfo{QueryKind: 1, InitialUser: s("u"), InitialQueryID: s("q"), InitialAddress: s("a"), Interface: 1, OSUser: s("o"), Hostname: s("h"),
+	info := ref.ClientInfo{QueryKind: byte(rapid.SampledFrom([]int{1, 1, 1, 0, 2}).Draw(rt, "query-kind")), InitialUser: s("u"), InitialQueryID: s("q"), InitialAddress: s("a"), Interface: 1, OSUser: s("o"), Hostname: s("h"),
 		ClientName: s("c"), Major: i("ma"), Minor: i("mi"), Revision: i("r"), QuotaKey: s("k"), Patch: i("p"),
 		Span: ref.Span{Valid: rapid.Bool().Draw(rt, "span"), TraceID: [16]byte{1}, SpanID: [8]byte{2}, State: "k=v", Flags: 1}}
 	switch name {
